@@ -640,7 +640,7 @@ func judgeK8s(c *Case, res *execResult, o *vkit.Outcome) {
 			if l.End {
 				ch.log += "\n"
 			}
-			if !strings.HasPrefix(l.Log, ch.tag) || strings.ContainsAny(l.Log, "\n\r") {
+			if !strings.HasPrefix(l.Log, ch.tag) || strings.ContainsAny(l.Log, "\n") {
 				o.Class("harness:bad-line")
 				return
 			}
